@@ -38,7 +38,7 @@ def _interp(pid, what, bounded, extra_assume=None, note=None):
 
 _interp("C01", "Theorems C01_*: C01_vector_to_field_rule (rule level, end to end): after `obj.F = jso.path` the field holds the cascade's conversion of the value at the path, nothing else changes and the rule succeeds; the assign cascade, reached through Ctx.set, puts into a destination of each kind exactly `convert` of the source's text / the source integer narrowed as Go narrows; absent sources leave the field alone or zero it. Tied to the code by running assignment-heavy programs over every source kind x destination kind on the real decoder and in the model.",
         "220 programs quick / 2500 thorough per seed")
-_interp("C02", "Theorems C02_*: a field write touches one field of one object and nothing else in the context; writes to different fields commute; evaluation of sources is pure; and at program level (C02_independent_rules_any_order) a block of rules `obj.Fi = <literal or document path>` with pairwise distinct destination fields succeeds in every ordering, every ordering ends in the same objects, variables, counters and call log, each destination holds what its rule alone writes and nothing else changed (any number of rules, any user functions, any fuel; getter / modifier / variable sources are covered per rule). Literal and getter results are values in the model; that the code does not alias them is what the correspondence (all permutations of independent rules, literal lengths 1..33) checks, with a direct oracle on the real decoder comparing all orderings.",
+_interp("C02", "Theorems C02_*: a field write touches one field of one object and nothing else in the context; writes to different fields commute; evaluation of sources is pure; and at program level (C02_independent_rules_any_order) a block of rules `obj.Fi = <literal | document path | static or context variable | field of another object>` with pairwise distinct destination fields succeeds in every ordering, every ordering ends in the same objects, variables, counters and call log, each destination holds what its rule alone writes and nothing else changed (any number of rules, any user functions, any fuel; getter / modifier sources are covered per rule). Literal and getter results are values in the model; that the code does not alias them is what the correspondence (all permutations of independent rules, literal lengths 1..33) checks, with a direct oracle on the real decoder comparing all orderings.",
         "every permutation of 2-4 independent rules (fresh objects; context variables also on a recycled context), 260 cases quick / 2600 thorough")
 _interp("C03", "Theorems C03_*: a plain condition runs exactly the branch node_cmp selects; the literal-left route through op.Swap decides lit op v (mirror law proved for all six operators, integers and strings, struct / static / vector operands); helper and cond-OK forms branch on the helper's result; the verdict of any comparison is a function of variables, objects and counters only (node_cmp_core), so stale scratch values cannot flip it.",
         "220 programs quick / 2500 thorough")
